@@ -355,6 +355,11 @@ func genSeries(r *rand.Rand) seriesJSON {
 		4: {`SecRule &ARGS "@ge 0" "id:207,phase:4,pass,setvar:tx.p4=+1"`},
 		5: {`SecRule TX:score "@ge 0" "id:208,phase:5,pass,setvar:tx.p5=+1"`},
 	}
+	// the snapshot family: every derived / view / single-valued variable copied into TX (count or
+	// value), size thresholds around typical values
+	for ph, lines := range snapshotRules(r) {
+		obs[ph] = append(obs[ph], lines...)
+	}
 	var b strings.Builder
 	b.WriteString("SecRuleEngine On\nSecRequestBodyAccess On\n")
 	// small limits: any per-collection / per-buffer state that accumulates over the transactions of
@@ -418,10 +423,38 @@ func genSeries(r *rand.Rand) seriesJSON {
 	}
 	// "fresh names": every request of the series uses argument / cookie / header names of its own,
 	// so distinct names accumulate over the life of the pooled object while each request stays small
-	freshNames := r.Intn(2) == 0
+	nameMode := r.Intn(3)
+	freshNames := nameMode == 1
+	// "constant count": every request of the series has the same NUMBER of distinct GET / POST names
+	// while names and values change their lengths from request to request
+	constCount := nameMode == 2
+	kGet, kPost, sameNames := 1+r.Intn(3), r.Intn(2), r.Intn(2) == 0
 	seq := 0
 	vals := []string{"attack", "one", "x", "ONE", "Attack 1"}
+	longv := func() string {
+		if r.Intn(3) == 0 {
+			return vals[r.Intn(len(vals))]
+		}
+		return strings.Repeat("x", 1+r.Intn(40)) + []string{"", "attack", " one"}[r.Intn(3)]
+	}
 	pick := func() ([][2]string, [][2]string) {
+		if constCount {
+			seq++
+			nm := func(base string, i int) string {
+				if sameNames {
+					return fmt.Sprintf("%s%d", base, i)
+				}
+				return fmt.Sprintf("%s%d%s", base, i, strings.Repeat("n", seq%4))
+			}
+			var g, p [][2]string
+			for i := 0; i < kGet; i++ {
+				g = append(g, [2]string{nm("q", i), longv()})
+			}
+			for i := 0; i < kPost; i++ {
+				p = append(p, [2]string{nm("b", i), longv()})
+			}
+			return g, p
+		}
 		if freshNames {
 			seq++
 			g := [][2]string{{fmt.Sprintf("u%d", seq), vals[r.Intn(len(vals))]}, {fmt.Sprintf("v%d", seq), vals[r.Intn(len(vals))]}}
@@ -485,6 +518,9 @@ func genSeries(r *rand.Rand) seriesJSON {
 	if freshNames {
 		sj.Triggers = append(sj.Triggers, "freshnames")
 	}
+	if constCount {
+		sj.Triggers = append(sj.Triggers, "constcount")
+	}
 	if uploads {
 		sj.Triggers = append(sj.Triggers, "uploads")
 	}
@@ -492,4 +528,81 @@ func genSeries(r *rand.Rand) seriesJSON {
 		sj.Triggers = append(sj.Triggers, "spill")
 	}
 	return sj
+}
+
+// ---------------------------------------------------------------------------------------
+// snapshot rules: derived / view / single-valued variables copied into TX
+// ---------------------------------------------------------------------------------------
+
+var snapCounts = []string{"ARGS", "ARGS_GET", "ARGS_POST", "ARGS_NAMES", "ARGS_GET_NAMES", "ARGS_POST_NAMES", "ARGS_PATH", "FILES", "FILES_NAMES",
+	"FILES_SIZES", "FILES_TMPNAMES", "FILES_TMP_CONTENT", "MULTIPART_PART_HEADERS", "REQUEST_COOKIES", "REQUEST_COOKIES_NAMES", "REQUEST_HEADERS",
+	"REQUEST_HEADERS_NAMES", "RESPONSE_HEADERS", "RESPONSE_HEADERS_NAMES", "TX", "GEO", "RESPONSE_ARGS"}
+
+var snapValues = []string{"ARGS_COMBINED_SIZE", "FILES_COMBINED_SIZE", "REQUEST_BODY_LENGTH", "FULL_REQUEST_LENGTH", "REQBODY_ERROR", "REQBODY_PROCESSOR",
+	"REQBODY_PROCESSOR_ERROR", "URLENCODED_ERROR", "INBOUND_DATA_ERROR", "OUTBOUND_DATA_ERROR", "MULTIPART_STRICT_ERROR", "MULTIPART_UNMATCHED_BOUNDARY",
+	"MULTIPART_BOUNDARY_QUOTED", "MULTIPART_DATA_AFTER", "MULTIPART_FILENAME", "MULTIPART_NAME", "QUERY_STRING", "REQUEST_URI", "REQUEST_URI_RAW", "REQUEST_LINE",
+	"REQUEST_METHOD", "REQUEST_PROTOCOL", "REQUEST_BASENAME", "REQUEST_FILENAME", "PATH_INFO", "AUTH_TYPE", "SERVER_NAME", "SERVER_ADDR", "SERVER_PORT",
+	"REMOTE_ADDR", "REMOTE_PORT", "REMOTE_HOST", "REMOTE_USER", "REQUEST_BODY", "SESSIONID", "USERID", "HIGHEST_SEVERITY"}
+
+var snapResponseValues = []string{"RESPONSE_CONTENT_TYPE", "RESPONSE_CONTENT_LENGTH", "RESPONSE_STATUS", "RESPONSE_PROTOCOL", "STATUS_LINE", "RESPONSE_BODY"}
+
+var snapAccepted map[string]bool
+
+// accepted: the variable can be used as a rule target (checked once against seclang)
+func accepted(target string) bool {
+	if snapAccepted == nil {
+		snapAccepted = map[string]bool{}
+	}
+	if v, ok := snapAccepted[target]; ok {
+		return v
+	}
+	_, err := newWAF(fmt.Sprintf("SecRule %s \"@unconditionalMatch\" \"id:1,phase:2,pass\"\n", target))
+	snapAccepted[target] = err == nil
+	return err == nil
+}
+
+func snapshotRules(r *rand.Rand) map[int][]string {
+	out := map[int][]string{}
+	id := 400
+	add := func(ph int, line string) { out[ph] = append(out[ph], line) }
+	key := func(v string) string { return strings.ToLower(strings.ReplaceAll(v, "_", "")) }
+	for _, v := range snapCounts {
+		if r.Intn(2) == 0 || !accepted("&"+v) {
+			continue
+		}
+		id++
+		ph := []int{1, 2, 2, 2, 5}[r.Intn(5)]
+		add(ph, fmt.Sprintf(`SecRule &%s "@ge 0" "id:%d,phase:%d,pass,setvar:tx.n%s%d=%%{MATCHED_VAR}"`, v, id, ph, key(v), ph))
+	}
+	for _, v := range snapValues {
+		if r.Intn(2) == 0 || !accepted(v) {
+			continue
+		}
+		id++
+		ph := []int{1, 2, 2, 2, 5}[r.Intn(5)]
+		add(ph, fmt.Sprintf(`SecRule %s "@unconditionalMatch" "id:%d,phase:%d,pass,setvar:tx.v%s%d=%%{MATCHED_VAR}"`, v, id, ph, key(v), ph))
+	}
+	for _, v := range snapResponseValues {
+		if r.Intn(2) == 0 || !accepted(v) {
+			continue
+		}
+		id++
+		ph := []int{3, 4, 5}[r.Intn(3)]
+		add(ph, fmt.Sprintf(`SecRule %s "@unconditionalMatch" "id:%d,phase:%d,pass,setvar:tx.v%s%d=%%{MATCHED_VAR}"`, v, id, ph, key(v), ph))
+	}
+	// size limits (CRS 920390 style) around typical sizes: the verdict depends on the exact value
+	if r.Intn(3) > 0 {
+		id++
+		act := "pass,setvar:tx.big=+1"
+		if r.Intn(2) == 0 {
+			act = "deny,status:413"
+		}
+		ph := 1 + r.Intn(2)
+		add(ph, fmt.Sprintf(`SecRule ARGS_COMBINED_SIZE "@gt %d" "id:%d,phase:%d,%s"`, 4+r.Intn(50), id, ph, act))
+	}
+	if r.Intn(2) == 0 {
+		id++
+		add(2, fmt.Sprintf(`SecRule FILES_COMBINED_SIZE "@gt %d" "id:%d,phase:2,pass,setvar:tx.bigfiles=+1"`, 5+r.Intn(30), id))
+	}
+	return out
 }
